@@ -172,12 +172,13 @@ class ExprMixin:
         if all(isinstance(v, T) and v.sort == BOOL for v in vals):
             op = "and" if isinstance(n.op, ast.And) else "or"
             return T(BOOL, f"({op} {' '.join(v.s for v in vals)})")
-        # value-returning and/or: a or b == a if truth(a) else b
+        # value-returning and/or: a or b == a if truth(a) else b ; its truth value is the and/or of the truth values
         res = vals[-1]
         for v in reversed(vals[:-1]):
             t = self.truth(v)
             a, b = self.unify(v, res)
             res = T(a.sort, f"(ite {t.s} {a.s} {b.s})" if isinstance(n.op, ast.Or) else f"(ite {t.s} {b.s} {a.s})")
+        res.tr = f"({'and' if isinstance(n.op, ast.And) else 'or'} {' '.join(self.truth(v).s for v in vals)})"
         return res
 
     def _pure_bool(self, n):
@@ -393,6 +394,8 @@ class ExprMixin:
                     newm = T(s, f"(ite {is_some(e).s} {a.s} (store {a.s} {k.s} {some(self.ctx, dflt).s}))")
                     self.store_back(n.value, newm, st)
                     return T(s[2], f"(ite {is_some(e).s} {unopt(e).s} {dflt.s})")
+                if getattr(self, "comp_side", None) is not None and not self.in_spec:
+                    self.comp_side.append(is_some(e).s)
                 if self.spec_mode or self.branch(is_some(e), st):
                     return unopt(e)
                 raise RaiseEx("KeyError", None, n.lineno)
@@ -449,7 +452,15 @@ class ExprMixin:
             if lo is None or hi is None:
                 return self.opaque("slice", a.sort)
             ext = "str.substr" if a.sort == STR else "seq.extract"
-            return T(a.sort, f"({ext} {a.s} {lo} (ite (>= (- {hi} {lo}) 0) (- {hi} {lo}) 0))")
+            term = T(a.sort, f"({ext} {a.s} {lo} (ite (>= (- {hi} {lo}) 0) (- {hi} {lo}) 0))")
+            if a.sort != STR and not self.spec_mode:
+                # array-like facts about the slice (solvers do not derive them under quantifiers)
+                r = self.opaque("slice", a.sort)
+                st.pc.append(f"(= {r.s} {term.s})")
+                st.pc.append(f"(= (seq.len {r.s}) (ite (>= (- {hi} {lo}) 0) (- {hi} {lo}) 0))")
+                st.pc.append(f"(forall ((|q_s| Int)) (! (=> (and (>= |q_s| 0) (< |q_s| (seq.len {r.s}))) (= (seq.nth {r.s} |q_s|) (seq.nth {a.s} (+ {lo} |q_s|)))) :pattern ((seq.nth {r.s} |q_s|))))")
+                return r
+            return term
         return self.opaque("slice")
 
     # ------------------------------------------------------------ literals
@@ -551,6 +562,9 @@ class ExprMixin:
         st2.env.update(env_upd)
         self.nofork += 1
         saved_spec = self.spec_mode
+        saved_side = getattr(self, "comp_side", None)
+        self.comp_side = [] if not saved_spec else None
+        self.in_spec = saved_spec
         self.spec_mode = True
         try:
             conds = [self.truth(self.ev(i, st2, old)).s for i in g.ifs]
@@ -565,8 +579,12 @@ class ExprMixin:
         finally:
             self.nofork -= 1
             self.spec_mode = saved_spec
+            side, self.comp_side = self.comp_side, saved_side
         st.pc.extend(st2.pc[len(st.pc):])
         qdecl = " ".join(f"({v} {sort_smt(s)})" for v, s in qvars)
+        if side and self.cur_contract.get("no_raise"):
+            # lookups inside the comprehension must not raise for any element of the domain
+            self.oblige(f"{self.cur}/comp-safe[comp#{self.comp_ord.get(id(n), 0)}]", "comp-safe", st, T(BOOL, f"(forall ({qdecl}) (=> {dom_cond} {conj(side)}))"), n.lineno)
         guard = conj([dom_cond] + conds)
         if isinstance(n, ast.GeneratorExp):
             return ("gen", qdecl, guard, el)
